@@ -530,39 +530,8 @@ func (t *Topic) handleTopicTermination(sd *shutDown) {
 		s.detachSession(t.name)
 	}
 
-	// The topic stops reading its queues now. Release the sessions whose subscribe and leave
-	// requests are still queued: they are counted as in-flight and would block the session's
-	// cleanup forever; tell the requesters that the topic is gone.
-	now := types.TimeNow()
-	for len(t.reg) > 0 {
-		msg := <-t.reg
-		if msg.sess != nil {
-			if msg.sess.inflightReqs != nil {
-				msg.sess.inflightReqs.Done()
-			}
-			msg.sess.queueOut(ErrLockedReply(msg, now))
-		}
-	}
-	for len(t.unreg) > 0 {
-		msg := <-t.unreg
-		if msg.init && msg.sess != nil {
-			if msg.sess.inflightReqs != nil {
-				msg.sess.inflightReqs.Done()
-			}
-			msg.sess.queueOut(ErrLockedReply(msg, now))
-		}
-	}
-	// Pending {get}, {set}, {del} and {pub} requests will not be processed either.
-	for len(t.meta) > 0 {
-		if msg := <-t.meta; msg.init && msg.sess != nil {
-			msg.sess.queueOut(ErrLockedReply(msg, now))
-		}
-	}
-	for len(t.clientMsg) > 0 {
-		if msg := <-t.clientMsg; msg.init && msg.sess != nil && msg.Pub != nil {
-			msg.sess.queueOut(ErrLockedReply(msg, now))
-		}
-	}
+	// The topic stops serving its queues now: reject what is already queued.
+	t.rejectQueuedRequests()
 
 	usersRegisterTopic(t, false)
 
@@ -619,6 +588,72 @@ func (t *Topic) runLocal(hub *Hub) {
 
 		case sd := <-t.exit:
 			t.handleTopicTermination(sd)
+			t.lingerAfterExit()
+			return
+		}
+	}
+}
+
+// rejectRequest answers a request which reached a terminated topic and releases
+// the session's in-flight counter if the request holds it.
+func (t *Topic) rejectRequest(msg *ClientComMessage, inflight bool) {
+	if msg == nil || msg.sess == nil || !msg.init {
+		return
+	}
+	if inflight && msg.sess.inflightReqs != nil {
+		msg.sess.inflightReqs.Done()
+	}
+	if msg.Note == nil {
+		msg.sess.queueOut(ErrLockedReply(msg, types.TimeNow()))
+	}
+}
+
+// rejectQueuedRequests empties the topic's request queues without blocking.
+func (t *Topic) rejectQueuedRequests() {
+	for {
+		select {
+		case msg := <-t.reg:
+			// A join request always holds the in-flight counter.
+			if msg != nil && msg.sess != nil {
+				msg.init = true
+			}
+			t.rejectRequest(msg, true)
+		case msg := <-t.unreg:
+			t.rejectRequest(msg, true)
+		case msg := <-t.meta:
+			t.rejectRequest(msg, false)
+		case msg := <-t.clientMsg:
+			t.rejectRequest(msg, false)
+		default:
+			return
+		}
+	}
+}
+
+// lingerAfterExit keeps answering requests for a short while after the topic has terminated.
+// Sessions hold references to the topic's queues until they process the detach notice: a
+// {sub} or {leave} sent in that window would otherwise never be answered and would hold the
+// session's in-flight counter forever, blocking the session's cleanup.
+func (t *Topic) lingerAfterExit() {
+	timer := time.NewTimer(idleMasterTopicTimeout)
+	defer timer.Stop()
+	for {
+		select {
+		case msg := <-t.reg:
+			if msg != nil && msg.sess != nil {
+				msg.init = true
+			}
+			t.rejectRequest(msg, true)
+		case msg := <-t.unreg:
+			t.rejectRequest(msg, true)
+		case msg := <-t.meta:
+			t.rejectRequest(msg, false)
+		case msg := <-t.clientMsg:
+			t.rejectRequest(msg, false)
+		case <-t.serverMsg:
+		case <-t.supd:
+		case <-timer.C:
+			t.rejectQueuedRequests()
 			return
 		}
 	}
